@@ -126,6 +126,23 @@ pub fn seal_lib<B: Backend, P: Purpose>(
 where
     B::V: SealingVersion<P>,
 {
+    seal_lib_f::<B, P, SpyFooter>(rec, st, seal_key, claims, footer, aad, enc_fail, rng_fail)
+}
+
+#[allow(clippy::too_many_arguments)]
+pub fn seal_lib_f<B: Backend, P: Purpose, F: HFooter>(
+    rec: &mut Recorder,
+    st: &mut Stats,
+    seal_key: &[u8],
+    claims: &[u8],
+    footer: &[u8],
+    aad: &[u8],
+    enc_fail: (bool, bool),
+    rng_fail: Option<(usize, bool)>,
+) -> Option<Sealed>
+where
+    B::V: SealingVersion<P>,
+{
     let purpose = purpose_name::<P>();
     let key: Key<B::V, P::SealingKey> = key_from_bytes(seal_key).expect("sealing key parses");
     let kid = rec.intern(seal_key);
@@ -137,7 +154,7 @@ where
     spy_take();
     rng::reset(rng::Source::Os, true, rng_fail.map(|x| x.0), rng_fail.map(|x| x.1).unwrap_or(false));
     let r = catch_unwind(AssertUnwindSafe(|| {
-        UnsealedToken::<B::V, P, SpyClaims>::new(SpyClaims(claims.to_vec())).with_footer(SpyFooter(footer.to_vec())).seal(&key, aad)
+        UnsealedToken::<B::V, P, SpyClaims>::new(SpyClaims(claims.to_vec())).with_footer(F::make(footer)).seal(&key, aad)
     }));
     rng::passthrough();
     set_encode_fail(false, false);
@@ -195,11 +212,27 @@ pub fn present<B: Backend, P: Purpose>(
 ) where
     B::V: SealingVersion<P>,
 {
+    present_f::<B, P, SpyFooter>(rec, st, text, unseal_key, aad, mode, verdict, note)
+}
+
+#[allow(clippy::too_many_arguments)]
+pub fn present_f<B: Backend, P: Purpose, F: HFooter>(
+    rec: &mut Recorder,
+    st: &mut Stats,
+    text: &str,
+    unseal_key: &[u8],
+    aad: &[u8],
+    mode: DecodeMode,
+    verdict: bool,
+    note: Value,
+) where
+    B::V: SealingVersion<P>,
+{
     let purpose = purpose_name::<P>();
     st.presentations += 1;
     let sid = rec.intern(text.as_bytes());
     spy_take();
-    let parsed = catch_unwind(AssertUnwindSafe(|| SealedToken::<B::V, P, SpyClaims, SpyFooter>::from_str(text)));
+    let parsed = catch_unwind(AssertUnwindSafe(|| SealedToken::<B::V, P, SpyClaims, F>::from_str(text)));
     spy_take();
     let tok = match parsed {
         Err(p) => {
@@ -218,15 +251,20 @@ pub fn present<B: Backend, P: Purpose>(
     let (payload, footer) = split_token(&shown, hdr.len()).unwrap_or((b"<unsplittable>".to_vec(), Vec::new()));
     let wid = rec.intern(&payload);
     let fid = rec.intern(&footer);
-    let ufid = rec.intern(&tok.unverified_footer().0);
-    rec.emit(json!({"ev":"ParseRet","be":B::NAME,"str":sid,"ver":B::VER,"purpose":purpose,"ok":true,"wire":wid,"footer":fid,"ufooter":ufid}));
+    let ufid = rec.intern(&tok.unverified_footer().value_bytes());
+    // what was actually presented on the wire (the harness built the string from these bytes)
+    let (pwid, pfid) = match split_token(text.strip_suffix('.').filter(|t| !t[hdr.len().min(t.len())..].contains('.')).unwrap_or(text), hdr.len()) {
+        Some((pp, pf)) if text.starts_with(&hdr) => (rec.intern(&pp), rec.intern(&pf)),
+        _ => (wid, fid),
+    };
+    rec.emit(json!({"ev":"ParseRet","be":B::NAME,"str":sid,"ver":B::VER,"purpose":purpose,"ok":true,"wire":wid,"footer":fid,"ufooter":ufid,"pwire":pwid,"pfooter":pfid}));
     let Ok(key) = key_from_bytes::<B::V, P>(unseal_key) else {
         rec.emit(json!({"ev":"Note","what":"unsealing key does not parse for this backend","be":B::NAME}));
         return;
     };
     let kid = rec.intern(unseal_key);
     let aid = rec.intern(aad);
-    rec.emit(json!({"ev":"UnsealCall","be":B::NAME,"ver":B::VER,"purpose":purpose,"wire":wid,"footer":ufid,"key":kid,"aad":aid,
+    rec.emit(json!({"ev":"UnsealCall","be":B::NAME,"ver":B::VER,"purpose":purpose,"wire":pwid,"footer":pfid,"key":kid,"aad":aid,
         "mode":format!("{mode:?}"),"verdict":verdict,"note":note}));
     set_decode_mode(mode);
     let r = catch_unwind(AssertUnwindSafe(|| tok.unseal(&key, aad, &SpyValidator { verdict })));
@@ -237,7 +275,7 @@ pub fn present<B: Backend, P: Purpose>(
         Ok(Err(e)) => rec.emit(json!({"ev":"UnsealRet","ok":false,"errc":errc(&e),"err":errname(&e),"claims":0,"footer":0})),
         Ok(Ok(t)) => {
             let c = rec.intern(&t.claims.0);
-            let f = rec.intern(&t.footer.0);
+            let f = rec.intern(&t.footer.value_bytes());
             rec.emit(json!({"ev":"UnsealRet","ok":true,"claims":c,"footer":f,"errc":""}));
         }
     }
@@ -372,10 +410,15 @@ where
         if tampered { (modes[mi % 3], mi % 2 == 0) } else { (DecodeMode::Ok, true) }
     };
     for (si, &mlen) in msg_lens.iter().enumerate() {
-        for variant in 0..2usize {
-            // variant 0: footer + (assertion if supported); variant 1: no footer, no assertion
-            let footer: Vec<u8> = if variant == 0 { rng.bytes(5 + si) } else { vec![] };
-            let aad: Vec<u8> = if variant == 0 && has_aad { rng.bytes(4 + si) } else { vec![] };
+        for variant in 0..3usize {
+            // variant 0: footer + (assertion if supported); variant 1: no footer, no assertion;
+            // variant 2 (one message length only): a long footer and assertion, so that every buffer size a
+            // streaming pre-authentication writer might use is crossed
+            if variant == 2 && si != 1 {
+                continue;
+            }
+            let footer: Vec<u8> = match variant { 0 => rng.bytes(5 + si), 2 => rng.bytes(150), _ => vec![] };
+            let aad: Vec<u8> = if !has_aad { vec![] } else { match variant { 0 => rng.bytes(4 + si), 2 => rng.bytes(140), _ => vec![] } };
             rec.emit(json!({"ev":"Reset","scenario":format!("tamper-{}-{}-{}-{}", B::NAME, purpose, mlen, variant)}));
             learn(rec, purpose, km);
             learn(rec, purpose, other);
@@ -515,7 +558,29 @@ where
                     go(rec, st, token_string::<B, P>(&q, f), &km.unseal, &aad, true, json!({"cls":"splice","what":"nonce2+rest1"}));
                 }
             }
-            // 8. header relabel: the same payload/footer under every other version and purpose
+            // 8. bodies shorter than any valid token, with every value of the final byte
+            for b in 0..=255u8 {
+                let mut q = p[..nlen].to_vec();
+                q.push(b);
+                go(rec, st, token_string::<B, P>(&q, f), &km.unseal, &aad, true, json!({"cls":"short-all-values","len":q.len(),"last":b}));
+                if nlen > 0 {
+                    go(rec, st, token_string::<B, P>(&[b], f), &km.unseal, &aad, true, json!({"cls":"short-all-values","len":1,"last":b}));
+                }
+            }
+            // 9. a footer type whose decoder is not injective: a re-spelled footer is a different wire footer
+            if variant == 0 {
+                let nf = b"{\"kid\":\"key-1\"}".to_vec();
+                if let Some(sn) = seal_lib_f::<B, P, NormFooter>(rec, st, &km.seal, &claims, &nf, &aad, (false, false), None) {
+                    present_f::<B, P, NormFooter>(rec, st, &sn.text, &km.unseal, &aad, DecodeMode::Ok, true, json!({"cls":"identity"}));
+                    for k in 1..=2usize {
+                        let mut g = nf.clone();
+                        g.extend(std::iter::repeat_n(b' ', k));
+                        let (m, v) = next_mode(true);
+                        present_f::<B, P, NormFooter>(rec, st, &token_string::<B, P>(&sn.payload, &g), &km.unseal, &aad, m, v, json!({"cls":"footer-respelled","k":k}));
+                    }
+                }
+            }
+            // 10. header relabel: the same payload/footer under every other version and purpose
             relabel::<B, P>(rec, st, &s, km, &aad, &mut rng);
         }
     }
